@@ -115,3 +115,22 @@ package pool
 //@ property C19
 //@ ensures [errkind] !typeis(err, VerifyFailedError) && !typeis(err, balance.LowBalanceError)
 //@ modifies nothing
+
+// ---- the Pool interface as seen by agents: every call is counted (ghost) -----------------
+//@ ghost var poolcalls int
+//@ ghost var lastPoolCall string
+
+//@ interface pool.Pool.Connect(ctx, req) (result, err)
+//@ ensures [result] err == nil ==> result != nil
+//@ defines [count]  poolcalls == old(poolcalls) + 1 && lastPoolCall == "connect"
+//@ modifies poolcalls, lastPoolCall
+
+//@ interface pool.Pool.Update(ctx, req) (result, err)
+//@ ensures [result] err == nil ==> result != nil
+//@ defines [count]  poolcalls == old(poolcalls) + 1 && lastPoolCall == "update"
+//@ modifies poolcalls, lastPoolCall
+
+//@ interface pool.Pool.Peer(ctx, req) (result, err)
+//@ ensures [result] err == nil ==> result != nil
+//@ defines [count]  poolcalls == old(poolcalls) + 1 && lastPoolCall == "peer"
+//@ modifies poolcalls, lastPoolCall
